@@ -25,6 +25,26 @@ theorem no_early_end (m p : Bytes) (hp : p <+: wire m) (hne : p ≠ wire m) :
 theorem marker_last (m : Bytes) : ∃ pre, wire m = pre ++ [13, 10, 46, 13, 10] :=
   ⟨encode .sol m, rfl⟩
 
+/-- The marker occurs exactly once: wherever `CRLF . CRLF` occurs in what is written, nothing
+    follows it. (Together with `marker_last`: its only occurrence is the last five octets.) -/
+theorem marker_once (m pre suf : Bytes) (h : wire m = pre ++ terminator ++ suf) : suf = [] := by
+  by_cases hs : suf = []
+  · exact hs
+  · exfalso
+    have hp : (pre ++ terminator) <+: wire m := ⟨suf, h.symm⟩
+    have hne : pre ++ terminator ≠ wire m := by
+      intro e
+      have := congrArg List.length e
+      rw [h] at this
+      cases suf with
+      | nil => exact hs rfl
+      | cons a t => simp at this
+    have hd : (serverRun (pre ++ terminator)).1 = .done := by
+      have h1 := term_done_any (decode .sol pre).1
+      simp only [serverRun, decode_append]
+      exact h1
+    exact no_early_end m _ hp hne hd
+
 /-- Writing a message in several frames through one codec equals writing it in one piece. -/
 theorem frames_assoc (fs : List Bytes) : encodeFrames .sol fs = encode .sol fs.flatten :=
   frames_flatten .sol fs
@@ -40,5 +60,10 @@ example :
     let m : Bytes := [46, 97, 13, 10, 46, 13, 10, 13, 46, 10, 46]
     wire m = [46, 46, 97, 13, 10, 46, 46, 13, 10, 13, 46, 10, 46, 13, 10, 46, 13, 10]
       ∧ serverRun (wire m) = (.done, m ++ CRLF) := by decide
+
+/-- non-vacuity of `marker_once`: the hypothesis is met (with `suf = []`) by a message that
+    itself contains `CRLF . CRLF`; the stuffed copy inside is not an occurrence. -/
+example : wire [97, 13, 10, 46, 13, 10] = [97, 13, 10, 46, 46, 13, 10] ++ terminator ++ [] := by
+  decide
 
 end LV.C03
